@@ -24,6 +24,8 @@ func init() {
 }
 
 func runC08(w *World, r *Report) {
+	hrStoreFileTruncates(w, r, "R2")
+	hrLastError(w, r, "R3")
 	fsT := "FileSystemOperation)."
 	// R1/R2 Restore
 	rs := w.Fn(pkgConfig, "FileSystemOperation.Restore")
